@@ -275,6 +275,21 @@ Proof.
     + intros i HI2. destruct (e6 i HI2) as (b & H). exists b. apply in_or_app. right. exact H.
     + apply hdr_ok_run; [exact e7|]. exists blk. rewrite O2. exact HB.
     + apply (es_ok_run id l _ Dd); assumption.
+  - (* MSendBack *)
+    destruct V as (pb & G & RC). cbn [apply]. rewrite G. unfold send_back. cbv zeta.
+    assert (SUB : forall x, In x (map pb_id (cc_pending (cs_conn c pb id))) -> In x (map pb_id (cc_pending c))).
+    { unfold cs_conn. destruct (cs_end c pb); cc_cbn; [apply pend_del_ids_incl | rewrite pend_put_ids; auto]. }
+    assert (ND : NoDup (map pb_id (cc_pending (cs_conn c pb id)))).
+    { unfold cs_conn. destruct (cs_end c pb); cc_cbn; [apply pend_del_NoDup | rewrite pend_put_ids]; apply (es_nodup _ E). }
+    assert (E2 : ES (cs_conn c pb id)).
+    { apply (ES_sub c); auto; unfold cs_conn; destruct (cs_end c pb); reflexivity || auto. }
+    assert (E3 : ES (if (0 <? cs_n c pb)%Z then cl_add_window (cs_conn c pb id) 0 (cs_n c pb) else cs_conn c pb id)).
+    { destruct (0 <? cs_n c pb)%Z; [|exact E2].
+      destruct (add_window_fields (cs_conn c pb id) 0 (cs_n c pb)) as (A & B & C).
+      apply (ES_sub (cs_conn c pb id)); [exact A | unfold cl_add_window, cl_signal_window; reflexivity | rewrite C; auto | rewrite B; auto | rewrite B; exact ND | exact E2]. }
+    set (c3 := if (0 <? cs_n c pb)%Z then _ else _) in *.
+    destruct (cl_pend_get (cc_pending c3) id); [|exact E3].
+    apply (ES_sub c3); try reflexivity; auto; cc_cbn; [intro x; apply pend_del_ids_incl | apply pend_del_NoDup, (es_nodup _ E3)].
   - (* MEncSync *) cbn [apply]. destruct (negb _); [|exact E]. apply (ES_same c); try reflexivity; auto.
   - (* MNextID *)
     cbn [apply]. cbn [valid] in V. rewrite (u32_next _ V). destruct E as [e1 e2 e3 e4 e5 e6 e7 e8]. constructor; cc_cbn; auto.
@@ -369,6 +384,7 @@ Proof.
     generalize (cl_write_data (cc_maxFrame (cs_conn c pb id)) id (cs_chunk c pb) (cs_end c pb)). intro l.
     rewrite <- X1, <- X2, <- X3. generalize (cs_conn c pb id). induction l as [|o t IH]; intro c0; cbn [cl_notes]; [repeat split|].
     destruct (IH (cl_note c0 o)) as (A & B & C). rewrite A, B, C. repeat split.
+  - destruct (cl_pend_get _ _) as [pb|]; [|repeat split]. sb_cases c pb; repeat split.
   - destruct (negb _); repeat split.
   - destruct opb; repeat split.
 Qed.
@@ -449,6 +465,21 @@ Proof.
     + destruct (notes_fields hstate (cl_write_data (cc_maxFrame (cs_conn c pb id)) id (cs_chunk c pb) (cs_end c pb)) (cs_conn c pb id)) as (F1 & F2 & _).
       rewrite F1, F2, X1. split; [apply N.le_refl | intros x H; left; apply X2; exact H].
     + rewrite X1. split; [apply N.le_refl | intros x H; left; apply X2; exact H].
+  - destruct (cl_pend_get _ _) as [pb|]; [|split; [apply N.le_refl | intros x H; left; exact H]].
+    assert (X : cc_nextID (cs_conn c pb id) = cc_nextID c /\
+                forall x, In x (map pb_id (cc_pending (cs_conn c pb id))) -> In x (map pb_id (cc_pending c))).
+    { unfold cs_conn. destruct (cs_end c pb); cc_cbn; split; try reflexivity; intros x H;
+        [apply pend_del_ids_incl in H | rewrite pend_put_ids in H]; exact H. }
+    destruct X as [X1 X2]. unfold send_back. cbv zeta.
+    assert (Y : cc_nextID (if (0 <? cs_n c pb)%Z then cl_add_window (cs_conn c pb id) 0 (cs_n c pb) else cs_conn c pb id) = cc_nextID c /\
+                forall x, In x (map pb_id (cc_pending (if (0 <? cs_n c pb)%Z then cl_add_window (cs_conn c pb id) 0 (cs_n c pb) else cs_conn c pb id))) ->
+                          In x (map pb_id (cc_pending c))).
+    { destruct (0 <? cs_n c pb)%Z; [|split; assumption].
+      destruct (add_window_fields hstate (cs_conn c pb id) 0 (cs_n c pb)) as (A & B & _). rewrite A, B. split; assumption. }
+    destruct Y as [Y1 Y2]. set (c3 := if (0 <? cs_n c pb)%Z then _ else _) in *.
+    destruct (cl_pend_get (cc_pending c3) id); cc_cbn; rewrite Y1; (split; [apply N.le_refl|]); intros x H; left.
+    + apply Y2. apply pend_del_ids_incl in H. exact H.
+    + apply Y2. exact H.
   - destruct (negb _); split; try apply N.le_refl; intros x H; left; exact H.
   - cbn [valid] in V. cc_cbn. rewrite (u32_next _ V). split; [flia | intros x H; left; exact H].
   - destruct V as (_ & IDS & _ & _ & _ & PB & _). rewrite (u32_next _ IDS). destruct opb as [pb|]; cc_cbn.
